@@ -271,6 +271,31 @@ func scenarios() []scenario {
 				w.SM.CtrlAddIpBlacklist(base.ApiCtrlAddIpBlacklistReq{Ip: "10.1.1.4", DurationSec: 100})
 			})
 		}},
+		{Name: "hls-subsession+blacklist", Conf: world.Conf{"hls.enable": true, "hls.cleanup_mode": 0, "hls.sub_session_hash_key": "k1"}, Build: func(w *world.W, e *sched.Exec) {
+			// HLS sub-session mode: a viewer gets a session id through a redirect and keeps polling with it
+			// while its address is being black-listed and another viewer arrives
+			viewer := func(name, remote string, polls int) {
+				e.Go(name, func() {
+					defer func() { recover() }()
+					uri := "/hls/s.m3u8"
+					for i := 0; i < polls; i++ {
+						req, _ := http.NewRequest("GET", "http://h"+uri, nil)
+						req.RequestURI = uri
+						req.RemoteAddr = remote
+						rec := &hijackW{c: sched.NewConn(name, nil), hdr: http.Header{}}
+						logic.VerifServeHls(w.SM, rec, req)
+						if loc := rec.hdr.Get("Location"); loc != "" {
+							uri = loc
+						}
+					}
+				})
+			}
+			viewer("hls-viewer-A", "10.1.1.3:1", 3)
+			viewer("hls-viewer-B", "10.1.1.4:1", 2)
+			e.Go("api-blacklist", func() {
+				w.SM.CtrlAddIpBlacklist(base.ApiCtrlAddIpBlacklistReq{Ip: "10.1.1.3", DurationSec: 100})
+			})
+		}},
 		{Name: "hls-pub+hls-sub+tick", Conf: world.Conf{"hls.enable": true, "hls.cleanup_mode": 0}, Build: func(w *world.W, e *sched.Exec) {
 			rtmpThread(w, e, "publisher", rtmpScript("publish", "s", mediaMsgs(2)))
 			e.Go("hls-get", func() {
